@@ -6,9 +6,9 @@
 package determinism
 
 import (
-	"os"
 	"bytes"
 	"fmt"
+	"os"
 	"sort"
 	"strings"
 	"time"
